@@ -201,6 +201,22 @@ def pattern_cases():
     for i in range(1, len(hist)):
         ops = hist[:i] + [["restart"], ["setinsync", 1]] + hist[i:]
         res.append((U, ops))
+    # quiet restarts: a flag changed by the delay check (safe) / a conflict (unsafe) and nothing else touches the
+    # unconfirmed set before a clean stop; the restarted node must still know it (no second safe report)
+    for src in (0, 2):
+        for quiet in ([], [["block", 1, 0, [3], 1]], [["gettx", 4], ["unconf"]]):
+            ops = [["setinsync", 1], ["tx", 4, src], ["advance", 75000], ["delaycheck"]] + quiet + \
+                  [["restart"], ["setinsync", 1], ["delaycheck"], ["unconf"], ["restart"], ["setinsync", 1], ["advance", 75000],
+                   ["delaycheck"], ["unconf"]]
+            res.append((U, ops))
+    # the set is persisted (restart / block) while the tx is not yet safe, then only the delay check changes it
+    for persist in ([["restart"], ["setinsync", 1]], [["block", 1, 0, [3], 1]], [["block", 1, 0, [], 1], ["restart"], ["setinsync", 1]]):
+        ops = [["setinsync", 1], ["tx", 4, 0]] + persist + [["advance", 75000], ["delaycheck"], ["restart"], ["setinsync", 1],
+               ["delaycheck"], ["unconf"], ["advance", 75000], ["delaycheck"]]
+        res.append((U, ops))
+    ops = [["setinsync", 1], ["tx", 1, 0], ["tx", 2, 1], ["restart"], ["setinsync", 1], ["advance", 75000], ["delaycheck"], ["unconf"],
+           ["restart"], ["setinsync", 1], ["delaycheck"], ["unconf"]]
+    res.append((U, ops))
     return res
 
 
